@@ -149,8 +149,20 @@ pub fn run_path(scn: &Value) -> Value {
             n += 1;
             let der = keys::raw_der(fam, idx);
             let sk = keys::load(fam, idx);
-            let material = sk.public().as_bytes().to_vec();
-            let std_spki = standard_spki(typ, &material);
+            let mut generated: Option<Vec<u8>> = None;
+            let mut material = sk.public().as_bytes().to_vec();
+            let mut std_spki = standard_spki(typ, &material);
+            // a path that starts from a freshly generated key pair works on that key's material
+            if scn["path"][0] == "generated" {
+                let kt = if typ == "ed25519" { in_toto::crypto::KeyType::Ed25519 } else { in_toto::crypto::KeyType::Ecdsa };
+                if let Ok(Ok(der)) = guarded(|| PrivateKey::new(kt)) {
+                    if let Ok(k) = PrivateKey::from_pkcs8(&der, scheme_of(type_scheme(fam).1)) {
+                        material = k.public().as_bytes().to_vec();
+                        std_spki = standard_spki(typ, &material);
+                        generated = Some(der);
+                    }
+                }
+            }
             let mut cur: Option<PublicKey> = None;
             let mut scheme = SignatureScheme::Ed25519;
             let mut scheme_s = String::new();
@@ -158,6 +170,15 @@ pub fn run_path(scn: &Value) -> Value {
             for (step, op) in scn["path"].as_array().unwrap().iter().enumerate() {
                 let op = op.as_str().unwrap();
                 let r: Result<Result<PublicKey, String>, String> = guarded(|| match op {
+                    "generated" => {
+                        scheme_s = type_scheme(fam).1.to_string();
+                        scheme = scheme_of(&scheme_s);
+                        halgs = true;
+                        match &generated {
+                            Some(der) => PrivateKey::from_pkcs8(der, scheme.clone()).map(|k| k.public().clone()).map_err(|e| e.to_string()),
+                            None => Err("key generation failed".to_string()),
+                        }
+                    }
                     "private" => {
                         scheme_s = type_scheme(fam).1.to_string();
                         scheme = scheme_of(&scheme_s);
